@@ -1,6 +1,7 @@
 package core
 
 import (
+	"sync"
 	"fmt"
 	"go/constant"
 	"go/token"
@@ -475,10 +476,27 @@ func (e *phiEnv) withNil(v ssa.Value, t bool) *phiEnv {
 	return newPhiEnv(m, nilOf)
 }
 
-var nilTestCount = map[*ssa.Function]map[ssa.Value]int{}
+var (
+	nilTestCount = map[*ssa.Function]map[ssa.Value]int{}
+	cacheMu      sync.Mutex // the thorough tier analyses several variants in parallel
+)
+
+// ResetCaches drops the per-function caches (they are keyed by SSA objects and would keep every program
+// analysed in this process alive).
+func ResetCaches() {
+	cacheMu.Lock()
+	nilTestCount = map[*ssa.Function]map[ssa.Value]int{}
+	cmpConstCache = map[*ssa.Phi]bool{}
+	cacheMu.Unlock()
+	feasMu.Lock()
+	feasCache = map[*ssa.Function]map[*ssa.BasicBlock]bool{}
+	feasMu.Unlock()
+}
 
 // nilTested: how often fn compares v with nil.
 func nilTested(fn *ssa.Function, v ssa.Value) int {
+	cacheMu.Lock()
+	defer cacheMu.Unlock()
 	m, ok := nilTestCount[fn]
 	if !ok {
 		m = map[ssa.Value]int{}
@@ -513,9 +531,12 @@ var cmpConstCache = map[*ssa.Phi]bool{}
 
 // comparedWithConst: some referrer of phi (through conversions) is a comparison with a constant.
 func comparedWithConst(phi *ssa.Phi) bool {
+	cacheMu.Lock()
 	if r, ok := cmpConstCache[phi]; ok {
+		cacheMu.Unlock()
 		return r
 	}
+	cacheMu.Unlock()
 	res := false
 	var visit func(v ssa.Value, d int)
 	visit = func(v ssa.Value, d int) {
@@ -540,7 +561,9 @@ func comparedWithConst(phi *ssa.Phi) bool {
 		}
 	}
 	visit(phi, 0)
+	cacheMu.Lock()
 	cmpConstCache[phi] = res
+	cacheMu.Unlock()
 	return res
 }
 
